@@ -368,12 +368,17 @@ def check(ctx, rep):
     rep.check((lo, hi) == (4, 10), "gate", HF, "constants", "MIN/MAX pin length = 4/10", "pin length constants are %s..%s, documented 4..10" % (lo, hi))
     lt = gt = None
     for bb, d, f_t, t_t in util.bool_switches(se):
-        x = util.numnorm(d)
-        if x[0] == "binop" and x[2][0] == "len" and "pin::pin_to_bytes" in str(x[2]):
-            if x[1] == "Lt" and x[3][:2] == ("int", lo):
+        # `len < 4`, `4 > len`, `len <= 3`, `!(len >= 4)` ... : the interval the test is true on
+        it = util.int_test(d, unsigned=True)
+        if it is not None and it[0][0] == "len" and "pin::pin_to_bytes" in str(it[0]):
+            if it[1:] == (None, lo - 1):
                 lt = (bb, t_t, f_t)
-            if x[1] == "Gt" and x[3][:2] == ("int", hi):
+            elif it[1:] == (lo, None):
+                lt = (bb, f_t, t_t)      # the test of the in-range side: edges swapped
+            elif it[1:] == (hi + 1, None):
                 gt = (bb, t_t, f_t)
+            elif it[1:] == (None, hi):
+                gt = (bb, f_t, t_t)
     inr = None
     for bb, d, f_t, t_t in util.bool_switches(se):
         x = strip(d)
@@ -435,11 +440,14 @@ def check(ctx, rep):
         r = strip(vse.ret)
         ok_form = False
         why = "no comparison of the computed hash (Some payload) with the presented hash"
-        if util.is_call(r, "std::option::Option::<T>::map_or") and strip(r[2][0]) == strip(hc["term"]) and r[2][1][:2] == ("int", 0):
+        # (`is_some_and(f)` is `map_or(false, f)`)
+        is_mo = util.is_call(r, "std::option::Option::<T>::map_or") and len(r[2]) == 3 and r[2][1][:2] == ("int", 0)
+        is_isa = util.is_call(r, "std::option::Option::<T>::is_some_and") and len(r[2]) == 2
+        if (is_mo or is_isa) and strip(r[2][0]) == strip(hc["term"]):
             cl = None
             for i in vse.term_info.values():
-                if i.get("k") == "call" and i["name"] == "std::option::Option::<T>::map_or":
-                    cl = i["locargs"][2]
+                if i.get("k") == "call" and i["name"] == r[1]:
+                    cl = i["locargs"][2 if is_mo else 1]
             if cl is not None and cl[0] == "agg" and cl[1] == "closure" and len(cl[4]) == 1:
                 cap = cl[4][0]
                 cap_ok = cap[0] == "ref" and vse.read(vse.in_state.get(0, {}), cap[1]) in (("param", 5),) or (cap[0] == "ref" and cap[1] == ("local", 5))
